@@ -21,7 +21,8 @@ func init() {
 		Rule: "case = one full-application history through ABCI (generated valid emission x sub-distributor configuration, 15-40 blocks, thorough 30-80, block times hugging schedule and vesting boundaries; 0-4 signed vesting/bank/staking transactions per block of which ~40% are invalid, governance updates, signature messages, fees). " +
 			"Oracle per block: supply == sum of balances for every denomination; supply delta over BeginBlock == sum(coinbase events) - sum(burn events); coinbase only by the cfeminter module account, burn only by distributor_main_account; sum(coinbase) == floor of the exact big.Rat schedule's emission for that block (while the emission parameters are the genesis ones); " +
 			"sum(burn) == the integer burn payout the exact distributor model computes for that block from the pre-block books and balances; supply delta == 0 across every DeliverTx (accepted or rejected), governance execution, signature message and EndBlock; custom messages move coins only between fee payer, fee collector, sender, vesting module account and recipient in exactly the expected amounts. " +
-			"Non-trivial: minted>0 in >=3 blocks, burned>0 at least once, >=5 custom transactions delivered of which >=1 failed. Distinct by configuration+history hash.",
+			"Non-trivial: minted>0 in >=3 blocks, burned>0 at least once, >=5 custom transactions delivered of which >=1 failed. Distinct by configuration+history hash." +
+			" Every 8th case is the distributor bench in whole numbers with the burned total compared exactly; every 16th of those starts with a base account planted on an unused collector's address (payouts to it are refused transfers).",
 		Assumptions:   []string{"the burn prediction re-synchronises the model with the real pre-block books every block (it predicts one block at a time); exact multi-block distribution is C04's subject"},
 		Cases:         func(t string) int { return tierN(t, 320, 3000) },
 		MinNontrivial: func(t string) int { return tierN(t, 50, 500) },
